@@ -434,6 +434,25 @@ theorem C01_chain_double [CommSemiring α] [DecidableEq α] (cs : List Conv) (h 
   obtain ⟨D, hD, hsD, hWD, hgD⟩ := holder_double h' hw'
   exact ⟨D, hD, hsD, hWD, fun i hi => by rw [hgD i (hs ▸ hi), hg i hi]⟩
 
+/-- one ill-typed step — a method the class does not have, or a mode split that is not a
+partition of the modes — is refused. -/
+theorem C01_step_rejects [CommSemiring α] [DecidableEq α] (c : Conv) (h : Holder α) (hw : h.WF)
+    (hbad : c.target h.kind = none ∨ c.argsValid h.shape.length = false) :
+    c.apply h = .error .reject := step_rejects c h hw hbad
+
+/-- a chain from a well-formed holder is accepted EXACTLY when it is well-typed (so the
+acceptance of `C01_chain` is characterised, and the first ill-typed step ends the chain). -/
+theorem C01_chain_accepts_iff [CommSemiring α] [DecidableEq α] (cs : List Conv) (h : Holder α) (hw : h.WF) :
+    (∃ h', runChain cs h = .ok h') ↔ chainValid h.shape.length cs h.kind = true :=
+  chain_ok_iff cs h hw
+
+/-- a split is acceptable iff `gather_wrap_dims` yields a pair whose concatenation is a
+permutation of the modes (the range test of `to_tenmat` is implied). -/
+theorem C01_split_valid_iff (n : Nat) (rd cd : Option (List Nat)) (cyc : Option Cyclic) :
+    splitValid n rd cd cyc = true ↔
+      ∃ r c, gatherWrapDims n rd cd cyc = .ok (r, c) ∧ isPermOf (r ++ c) n = true :=
+  splitValid_iff_perm n rd cd cyc
+
 /-- a method the class does not have ends the chain. -/
 theorem C01_chain_rejects_missing_method :
     runChain [Conv.toTensor] (Holder.dense (⟨[2], [1, 2]⟩ : Dense Int)) = .error .reject ∧
